@@ -206,13 +206,84 @@ class SymDatetime(datetime.datetime, _Instant):
         return SymDatetime(self.fields, kw.get("tzinfo", self.tzinfo))
 
     def astimezone(self, tz=None):
-        return self._shift(tz)
+        shifted = self._shift(tz)      # range check (OverflowError) and the opaque same-instant value
+        src, dst = _fields_offset(self), tz_offset_seconds(tz) if tz is not None else None
+        if isinstance(src, int) and isinstance(dst, int) and isinstance(tz, datetime.tzinfo):
+            # fixed offsets on both sides: the calendar fields of the same instant in the target zone
+            return SymDatetime(shift_fields(self.fields, dst - src), tz)
+        return shifted
 
     __le__ = _Instant.__le__
     __lt__ = _Instant.__lt__
     __ge__ = _Instant.__ge__
     __gt__ = _Instant.__gt__
     __hash__ = None
+
+
+def _dim(y, m):
+    """days in month m of year y (forks on solver values)"""
+    for k in range(1, 13):
+        if bool(m == k):
+            if k == 2:
+                return 29 if bool(is_leap(y)) else 28
+            return _DIM[k - 1]
+    raise AssertionError("month out of range")
+
+
+def _fresh_int(c, name, hi):
+    import z3
+
+    from symex.core import SInt
+
+    v = z3.Int(name)
+    c.add(z3.And(v >= 0, v <= hi))
+    return SInt(v)
+
+
+def shift_fields(fields, delta):
+    """calendar fields of the instant `fields` + delta seconds (|delta| < 2 days, concrete):
+    time-of-day arithmetic with a day carry, month and year roll-over by case split"""
+    y, m, d, hh, mi, ss = fields
+    t = hh * 3600 + mi * 60 + ss + delta
+    carry = 0
+    while bool(t < 0):
+        t, carry = t + 86400, carry - 1
+    while bool(t >= 86400):
+        t, carry = t - 86400, carry + 1
+    if isinstance(t, int):
+        hh2, rem = divmod(t, 3600)
+        mi2, ss2 = divmod(rem, 60)
+    else:
+        # no division: fresh bounded integers tied to t by one linear equation (unique solution)
+        from symex import core
+
+        c = core.ctx()
+        k = c._dt_aux = getattr(c, "_dt_aux", 0) + 1
+        mk = (lambda nm, hi: core.sym_int_bv(f"_dt{k}_{nm}", 0, hi)) if getattr(c, "bv_ints", False) else (lambda nm, hi: _fresh_int(c, f"_dt{k}_{nm}", hi))
+        hh2, mi2, ss2 = mk("h", 23), mk("m", 59), mk("s", 59)
+        eq = hh2 * 3600 + mi2 * 60 + ss2 == t
+        c.add(core.zb(eq))
+    while carry > 0:
+        if bool(d + 1 > _dim(y, m)):
+            d = 1
+            if bool(m == 12):
+                m, y = 1, y + 1
+            else:
+                m = m + 1
+        else:
+            d = d + 1
+        carry -= 1
+    while carry < 0:
+        if bool(d - 1 < 1):
+            if bool(m == 1):
+                m, y = 12, y - 1
+            else:
+                m = m - 1
+            d = _dim(y, m)
+        else:
+            d = d - 1
+        carry += 1
+    return (y, m, d, hh2, mi2, ss2)
 
 
 def valid_day(X, y, m, d):
